@@ -128,6 +128,32 @@ def jsonify_paths(chk: Check, repo: Repo) -> None:
             kind = "fallback->str"
         seen_kinds.add(kind)
         chk.ob("jsonify-returns-a-json-native-kind", f.site(n.ast), kind is not None, f"_jsonify: `return {txt}` — {kind or 'not one of the JSON-native forms under its guard'}", key=f"jsonify|{txt}")
+    # a float is a JSON number only when it is finite (json.dumps writes NaN / Infinity, which is not JSON): the
+    # pass-through return is unreachable for a non-finite float - every path to it leaves `isinstance(p, float)` on its
+    # false edge or `math.isfinite(p)` on its true edge
+    passthrough = [n for n in rets if ast.unparse(n.ast.value) == p]
+    t_float = [n.id for n in cfg.nodes if n.kind == "test" and n.ast is not None and ast.unparse(n.ast) == f"isinstance({p}, float)"]
+    t_finite = [n.id for n in cfg.nodes if n.kind == "test" and n.ast is not None and ast.unparse(n.ast) == f"math.isfinite({p})"]
+    def not_diverted(s_: int, t_: int, lab: str) -> bool:
+        if lab == "exc":
+            return False
+        if s_ in t_float and lab == "false":
+            return False
+        if s_ in t_finite and lab == "true":
+            return False
+        return True
+    for n in passthrough:
+        leak = n.id in cfg.reachable([cfg.entry], edge_ok=not_diverted)
+        chk.ob("floats-in-results-are-finite", f.site(n.ast), bool(t_float) and bool(t_finite) and not leak, f"_jsonify: `return {p}` " + ("is reached by a float only past math.isfinite" if t_float and t_finite and not leak else "passes nan / inf through - not JSON numbers"), key="finite|jsonify")
+    nb = repo.func(TOOLS, "_numeric_bounds")
+    chk.unit(nb)
+    floats = [c for c in calls(nb.node) if call_name(c) == "float" and len(c.args) == 1]
+    par = {ch: pa for pa in ast.walk(nb.node) for ch in ast.iter_child_nodes(pa)}
+    okb = bool(floats)
+    for c in floats:
+        pa = par.get(c)
+        okb = okb and isinstance(pa, ast.IfExp) and pa.body is c and isinstance(pa.test, ast.Call) and call_name(pa.test) == "math.isfinite" and ast.unparse(pa.test.args[0]) == ast.unparse(c.args[0]) and isinstance(pa.orelse, ast.Constant) and pa.orelse.value is None
+    chk.ob("floats-in-results-are-finite", nb.site(), okb, "_numeric_bounds: every bound is float(x) only if math.isfinite(x), else None" if okb else "_numeric_bounds copies bounds without a finiteness test (DPT 14 declares -inf / inf)", key="finite|bounds")
     need = {"complex->as_dict", "enum->name.lower", "tuple->list of jsonified", "fallback->str"}
     chk.ob("jsonify-covers-complex-enum-tuple-fallback", f.site(), need <= seen_kinds, f"_jsonify forms present: {sorted(k for k in seen_kinds if k)}", key="jsonify|forms")
     chk.ob("jsonify-returns-a-json-native-kind", f.site(), not CFG(f.node).falls_off_end(), "every path ends in a return statement (no implicit `return None`)", key="jsonify|total")
@@ -140,6 +166,59 @@ def jsonify_paths(chk: Check, repo: Repo) -> None:
                 kw = next((k.value for k in c.keywords if k.arg == "value"), None)
                 ok = isinstance(kw, ast.Call) and call_name(kw) == "_jsonify"
                 chk.ob("decoded-values-are-jsonified", fn.site(c), ok, f"{fn.qualname}: {cn}(value={ast.unparse(kw) if kw is not None else '?'})", key=f"jsonified|{fn.qualname}|{cn}")
+
+
+def group_validity_flags(chk: Check, repo: Repo) -> None:
+    """An encoder that marks a *group* of optional fields invalid as a whole (`x_invalid = None in (a, b, ..)`) drops the
+    given members of a partially given group: the payload decodes to None for them - neither the written value nor a
+    refusal.  Such an encoder (or the range test it calls first) has to refuse a group whose members differ in being
+    None.  Census over every `None in (<fields>)` flag of the datapoint encoders."""
+    n = 0
+    for f in repo.all_functions():
+        if not f.module.name.startswith("xknx.dpt.") or f.node.name not in ("_to_knx", "to_knx"):
+            continue
+        groups = []
+        for x in walk_local(f.node):
+            if isinstance(x, ast.Compare) and len(x.ops) == 1 and isinstance(x.ops[0], ast.In) and isinstance(x.left, ast.Constant) and x.left.value is None and isinstance(x.comparators[0], ast.Tuple) and len(x.comparators[0].elts) >= 2:
+                groups.append([ast.unparse(e) for e in x.comparators[0].elts])
+        if not groups:
+            continue
+        chk.unit(f)
+        # guards: the function itself and the same-class helpers it calls
+        scope = [f]
+        for c in calls(f.node):
+            nm = call_name(c)
+            if nm.startswith(("cls.", "self.")) and nm.count(".") == 1 and f.cls is not None:
+                m = repo.lookup_method(f.cls, nm.split(".")[1])
+                if m is not None:
+                    scope.append(m)
+        def none_test(e: ast.AST) -> str | None:
+            if isinstance(e, ast.Compare) and len(e.ops) == 1 and isinstance(e.ops[0], ast.Is) and isinstance(e.comparators[0], ast.Constant) and e.comparators[0].value is None:
+                return ast.unparse(e.left)
+            return None
+        differ: set[frozenset] = set()
+        for g in scope:
+            for node in walk_local(g.node):
+                if isinstance(node, ast.If) and any(isinstance(b, ast.Raise) for b in node.body):
+                    for x in ast.walk(node.test):
+                        if isinstance(x, ast.Compare) and len(x.ops) == 1 and isinstance(x.ops[0], ast.NotEq):
+                            a, b = none_test(x.left), none_test(x.comparators[0])
+                            if a and b:
+                                differ.add(frozenset((a, b)))
+        for grp in groups:
+            n += 1
+            # the refusals connect the whole group (every member linked to the first by a chain of `!=` tests)
+            linked = {grp[0]}
+            changed = True
+            while changed:
+                changed = False
+                for pair in differ:
+                    if len(pair & linked) == 1 and pair <= set(grp):
+                        linked |= pair
+                        changed = True
+            ok = linked == set(grp)
+            chk.ob("partially-given-group-is-refused", f.site(), ok, f"{f.qualname}: the group {grp} is flagged invalid as a whole; " + ("a group whose members differ in being None is refused first" if ok else "nothing refuses a partially given group - its given members are dropped silently"), key=f"group|{f.qualname}|{'+'.join(grp)}")
+    chk.count("group validity flags in datapoint encoders", n)
 
 
 def codec_tools(chk: Check, repo: Repo) -> None:
@@ -258,6 +337,7 @@ def run(chk: Check, repo: Repo) -> None:
     types_native(chk, repo)
     jsonify_paths(chk, repo)
     codec_tools(chk, repo)
+    group_validity_flags(chk, repo)
     pagination(chk, repo)
     chk.rule("type-grammar check of the result dataclasses; per-return-path classification of _jsonify under CFG must-facts; structural wiring of the codec tools; slice algebra of the pagination")
     chk.assume("json.dumps serialises exactly the JSON-native grammar; complex as_dict forms are JSON-native (C10); encode/decode inversion per type is C08/C10")
